@@ -41,6 +41,13 @@ type Solver struct {
 	SolverSec float64
 	Errors    int
 	dead      bool
+
+	asserted [][]*Term // per level: the asserted terms (for one-shot fallback queries)
+	helper   *Solver   // non-incremental fallback process (z3 is much stronger without push/pop)
+	fastMs   int
+	OneShot  int
+	OneShotSec float64
+	isHelper bool
 }
 
 func NewSolver(kind string, store *TermStore, timeoutMs int) (*Solver, error) {
@@ -66,14 +73,21 @@ func NewSolver(kind string, store *TermStore, timeoutMs int) (*Solver, error) {
 		return nil, err
 	}
 	s := &Solver{name: kind, cmd: cmd, in: in, out: bufio.NewReaderSize(outp, 1<<16),
-		defined: map[int32]int{}, byLevel: [][]int32{nil}, store: store, timeout: timeoutMs}
+		defined: map[int32]int{}, byLevel: [][]int32{nil}, store: store, timeout: timeoutMs, asserted: [][]*Term{nil}}
 	s.send("(set-option :print-success false)")
 	s.send("(set-option :produce-models true)")
-	s.send(fmt.Sprintf("(set-option :timeout %d)", timeoutMs))
+	s.fastMs = 1500
+	if timeoutMs < s.fastMs {
+		s.fastMs = timeoutMs
+	}
+	s.send(fmt.Sprintf("(set-option :timeout %d)", s.fastMs))
 	return s, nil
 }
 
 func (s *Solver) Close() {
+	if s.helper != nil {
+		s.helper.Close()
+	}
 	if s.cmd != nil && !s.dead {
 		s.in.Close()
 		done := make(chan struct{})
@@ -99,6 +113,7 @@ func (s *Solver) Push() {
 	s.send("(push 1)")
 	s.level++
 	s.byLevel = append(s.byLevel, nil)
+	s.asserted = append(s.asserted, nil)
 }
 
 func (s *Solver) PopTo(level int) {
@@ -116,6 +131,7 @@ func (s *Solver) PopTo(level int) {
 		}
 	}
 	s.byLevel = s.byLevel[:level+1]
+	s.asserted = s.asserted[:level+1]
 	s.level = level
 }
 
@@ -160,6 +176,9 @@ func (s *Solver) ensure(t *Term) {
 		if u.op == OpVar {
 			s.send(fmt.Sprintf("(declare-const |%s| %s)", u.name, sortOf(u.w)))
 		} else {
+			if fpProducing(u) {
+				s.send(fmt.Sprintf("(define-fun t%df () (_ FloatingPoint %s) %s)", u.id, fpSort(u.w), fpBodySMT(u)))
+			}
 			s.send(fmt.Sprintf("(define-fun t%d () %s %s)", u.id, sortOf(u.w), bodySMT(u)))
 		}
 		s.defined[u.id] = s.level
@@ -173,6 +192,7 @@ func (s *Solver) Assert(t *Term) {
 	}
 	s.ensure(t)
 	s.send(fmt.Sprintf("(assert %s)", ref(t)))
+	s.asserted[s.level] = append(s.asserted[s.level], t)
 }
 
 func (s *Solver) readLine() (string, error) {
@@ -180,9 +200,53 @@ func (s *Solver) readLine() (string, error) {
 	return strings.TrimSpace(line), err
 }
 
-// Check runs check-sat; on Sat it fetches values for all declared variables that
-// are currently in scope and returns them as a model.
+// Check decides the current assertion stack: first incrementally under a short time
+// limit, then (if that is inconclusive) as a one-shot query in a fresh solver context.
 func (s *Solver) Check() (SatResult, Model) {
+	r, m := s.checkInc()
+	if r != Unknown || s.isHelper || s.dead {
+		return r, m
+	}
+	return s.checkOneShot()
+}
+
+func (s *Solver) checkOneShot() (SatResult, Model) {
+	t0 := time.Now()
+	if s.helper == nil || s.helper.dead {
+		h, err := NewSolver(s.name, s.store, s.timeout)
+		if err != nil {
+			return Unknown, nil
+		}
+		h.isHelper = true
+		s.helper = h
+	}
+	h := s.helper
+	h.send("(reset)")
+	h.send("(set-option :print-success false)")
+	h.send("(set-option :produce-models true)")
+	h.send(fmt.Sprintf("(set-option :timeout %d)", s.timeout))
+	h.level = 0
+	h.defined = map[int32]int{}
+	h.byLevel = [][]int32{nil}
+	h.asserted = [][]*Term{nil}
+	h.log = s.log
+	for _, lv := range s.asserted {
+		for _, t := range lv {
+			h.Assert(t)
+		}
+	}
+	r, m := h.checkInc()
+	s.OneShot++
+	s.OneShotSec += time.Since(t0).Seconds()
+	s.SolverSec += time.Since(t0).Seconds()
+	s.Errors += h.Errors
+	h.Errors = 0
+	return r, m
+}
+
+// checkInc runs check-sat; on Sat it fetches values for all declared variables that
+// are currently in scope and returns them as a model.
+func (s *Solver) checkInc() (SatResult, Model) {
 	t0 := time.Now()
 	s.Queries++
 	s.send("(check-sat)")
